@@ -23,12 +23,14 @@ Decided clauses:
        confirmed-by-reading exception.
   R7.4 cofactor clearing on every hash-to-group / from-uniform path before encoding; the raw
        Elligator map is reachable only from functions that clear the cofactor.
+  R7.13 expand_message_xmd never writes its b_0 buffer inside the block loop (every block chains b_0 xor b_(i-1)).
   R7.12 in the Edwards scalar multiplications bit 255 of the scalar never reaches ge25519_scalarmult / _base (which require
         a[31] <= 127): on every path - with and without clamping - byte 31 of the working copy is last written with a value whose
         bit 7 is known zero.
 NOT decided: exactness of field/scalar arithmetic, RFC 9380/9496 values, the accepted set of the
 decoders beyond the checklist.
 """
+import re
 from .. import deps
 from .. import terms as T
 from ..build import AnalysisBroken
@@ -463,6 +465,66 @@ def run(ctx, chk):
                        "is zero: the top radix-16 digit can exceed the table and the product is not (n mod 2^255) * P",
                        key="R7.12 %s top-bit" % name)
     chk.floor("R7.12", "hand-overs of the scalar to the Edwards multiplication routines", n712, 4)
+
+    # ---- R7.13 expand_message_xmd keeps b_0: every block is H(b_0 xor b_(i-1) || i || DST') with the *same* b_0 ---------------------
+    # (RFC 9380 5.3.1). b_0 is the buffer the last *_final before the block loop writes; nothing inside the loop may write it.
+    from ..loopinv import natural_loops
+    n713 = 0
+    for name in ("core_h2c_string_to_hash_sha256", "core_h2c_string_to_hash_sha512"):
+        f = prog.need(name, rule="R7.13")
+        loops = natural_loops(f)
+        inloop = set()
+        for body in loops.values():
+            inloop |= body
+
+        def aroot(o, f=f):
+            for _ in range(32):
+                if o[0] != "v":
+                    return None
+                d = f.insts[o[1]]
+                if d["op"] == "alloca":
+                    return o[1]
+                if d["op"] in ("getelementptr", "bitcast"):
+                    o = d["ops"][0]
+                else:
+                    return None
+            return None
+
+        def cname(ins):
+            c = ins.get("callee")
+            return c[1] if c and c[0] == "g" else ""
+        finals = [(i, ins) for i, ins in enumerate(f.insts) if ins["op"] == "call" and re.match(r"crypto_hash_sha\d+_final$", cname(ins))]
+        pre = [(i, ins) for i, ins in finals if ins["b"] not in inloop]
+        if not pre or len(finals) == len(pre):
+            raise AnalysisBroken("R7.13: %s: expected a *_final before the block loop and one inside it" % name)
+        b0 = aroot(pre[-1][1]["ops"][1])
+        if b0 is None:
+            raise AnalysisBroken("R7.13: %s: the b_0 buffer is not a local array" % name)
+        bad = None
+        for i, ins in enumerate(f.insts):
+            if ins["b"] not in inloop:
+                continue
+            if ins["op"] == "store" and aroot(ins["ops"][1]) == b0:
+                bad = (i, "stored to")
+            elif ins["op"] == "call":
+                nm = cname(ins)
+                if nm.startswith(("llvm.lifetime", "llvm.dbg")):
+                    continue
+                for k, o in enumerate(ins.get("ops", [])):
+                    if aroot(o) != b0:
+                        continue
+                    reader = (re.match(r"crypto_hash_sha\d+_update$", nm) and k == 1) or \
+                             (nm.startswith(("llvm.memcpy", "llvm.memmove", "memcpy", "memmove")) and k == 1)
+                    if not reader:
+                        bad = (i, "handed to %s as a destination" % (nm or "an indirect call"))
+            if bad:
+                break
+        n713 += 1
+        chk.ob("R7.13", f, "b_0 (written by the *_final at %s) is not modified inside the block loop" % f.loc(pre[-1][0]), bad is None,
+               loc=f.loc(bad[0]) if bad else f.loc(pre[-1][0]), detail="" if bad is None else "the b_0 buffer is %s at %s inside the loop: from "
+               "the second block on the chaining value is xored with a modified b_0, so outputs longer than one hash block differ from "
+               "RFC 9380" % (bad[1], f.loc(bad[0])), key="R7.13 %s b0" % name)
+    chk.floor("R7.13", "expand_message_xmd implementations", n713, 2)
 
     # public generators write their output only through cofactor-clearing maps or validated addition
     okw = {f.key for f in clearing} | {need("crypto_core_ed25519_add").key}
